@@ -235,6 +235,7 @@ func TestVerifC33(t *testing.T) {
 		res := zvC33Run(j.scn, j.evs, false)
 		r.Eval(1)
 		r.Traces(1)
+		r.Transitions(len(j.evs)) // interface events applied
 		// coverage (independent of the oracle's verdict)
 		changes, lastA, lastP := 0, "", ""
 		for _, e := range j.evs {
@@ -279,6 +280,7 @@ func TestVerifC33(t *testing.T) {
 		}
 		r.Count("adjacencies_inside_sequences", res.MidAdj)
 		r.Outcome(fmt.Sprintf("%s|%v|%v|%v|%s", j.scn, res.ActiveUp, res.HelloOK, res.AdjOK, res.Clause))
+		r.Visit(fmt.Sprintf("%s|%v|%v|%v|%v|%d", j.scn, res.ActiveUp, res.HelloOK, res.AdjOK, lastA+lastP, res.MidAdj)) // states = distinct observed end states
 		if res.FailedAt == len(j.evs)-1 {
 			r.Violation(res.Sig, zvC33Case{j.scn, j.evs}, "[%s %v] %s", j.scn, j.evs, res.Desc)
 		} else if res.FailedAt >= 0 {
